@@ -98,13 +98,9 @@ pub fn reset() {
 
 /// Draws the cost pool (each < 40 so that a sum of up to six cannot overflow u8).
 pub fn draw_costs<S: crate::harness::src::Src>(s: &mut S) {
-    let mut i = 0;
-    while i < LOG_MAX {
-        let c = s.u8();
-        s.assume(c < 40);
-        unsafe { COSTS[i] = c };
-        i += 1;
-    }
+    let c = [s.u8(), s.u8(), s.u8(), s.u8(), s.u8(), s.u8()];
+    s.assume(c[0] < 40 && c[1] < 40 && c[2] < 40 && c[3] < 40 && c[4] < 40 && c[5] < 40);
+    unsafe { COSTS = c };
 }
 
 pub fn log_len() -> usize {
